@@ -95,9 +95,10 @@ def check_case(case) -> Outcome:
         for a in graph.assets:
             got = {}
             for s in a.attack_steps:
-                if isinstance(s.attributes, dict):
-                    got[s.name] = _view(s.attributes)
-                    if s.type != s.attributes['type']:
+                attrs = getattr(s, 'attributes', None)
+                if isinstance(attrs, dict):
+                    got[s.name] = _view(attrs)
+                    if s.type != attrs['type']:
                         out.add(f'step-type:{where}', f'{a.name}.{s.name}')
             _cmp(out, where, a.name, got, expected[a.name])
 
@@ -129,7 +130,7 @@ def check_case(case) -> Outcome:
                 for i, t in enumerate(concrete):
                     got = {}
                     for n in g.nodes:
-                        if n.asset is objs[i] and isinstance(n.attributes, dict):
+                        if n.asset is objs[i] and isinstance(getattr(n, 'attributes', None), dict):
                             got[n.name] = _view(n.attributes)
                     _cmp(out, 'attackgraph-nodes', t, got, expected[t])
         except Exception as e:
